@@ -1,5 +1,6 @@
 import Poly.Proofs.PoW
 import Poly.Proofs.PoWBtc
+import Poly.Proofs.BtcRetarget
 /-!
 # C27 — PoW light client keeps the heaviest valid chain
 
@@ -209,6 +210,16 @@ theorem btc_common_ancestor_total {g : Hdr H R} {gh : Nat} {s : Store H R} {b : 
       s.index fork.height = some fork.hdr.hash ∧ gh ≤ fork.height ∧ fork.height ≤ b.height := by
   obtain ⟨L, x', h1, h2, _, h4, _, _, h7, h8, h9⟩ := commonAncestor_spec inv h p hnew hpar
   exact ⟨L, x', h1, h2, h4, h7, h8, h9⟩
+
+/-- The difficulty rule behind the Bitcoin client's `CheckHeader` at a retarget block: `calcDiffAdjust` (nanosecond
+arithmetic on `time.Time`) computes Bitcoin Core's `CalculateNextWorkRequired` (seconds): the old target scaled by the
+epoch's duration clamped to [T/4, 4T], divided by T = 1 209 600 s, capped at the proof-of-work limit, in compact form —
+for all timestamps, compact targets and limits. -/
+theorem btc_retarget_eq_spec (startSec endSec endBits : Nat) (powLimit : Int) :
+    Poly.Model.BtcRetarget.calcDiffAdjust startSec endSec endBits powLimit =
+      Poly.Model.BtcRetarget.bigToCompact
+        (Poly.Model.BtcRetarget.specNextTarget (Poly.Model.BtcRetarget.compactToBig endBits) startSec endSec powLimit) :=
+  Poly.Proofs.BtcRetarget.calcDiffAdjust_eq_spec startSec endSec endBits powLimit
 
 private def mkb (hash prev work : Nat) : Hdr Nat Unit := ⟨hash, prev, work, ()⟩
 
